@@ -9,6 +9,12 @@ use std::collections::BTreeSet;
 #[derive(Clone, Debug, Serialize, Deserialize)]
 pub struct Case {
     pub ops: Vec<Op>,
+    /// free-running phase at the end: this many threads store `per_thread` events each at the same time
+    /// (thread 0 stores ephemeral kinds), then every offset is read back
+    #[serde(default)]
+    pub stress_threads: u8,
+    #[serde(default)]
+    pub per_thread: u8,
 }
 
 pub struct C04;
@@ -39,8 +45,11 @@ impl Prop for C04 {
             reopen: 2,
             rebuild: 0,
             extra: 0,
+            pressure: 0,
         };
-        history(w, EvCfg::default(), tier.pick(40, 150)).prop_map(|ops| Case { ops }).boxed()
+        (history(w, EvCfg::default(), tier.pick(40, 150)), prop_oneof![3 => Just(0u8), 1 => 2u8..5], 8u8..40)
+            .prop_map(|(ops, stress_threads, per_thread)| Case { ops, stress_threads, per_thread })
+            .boxed()
     }
     fn label_floors(&self) -> Vec<(&'static str, f64)> {
         vec![("grew", 0.3), ("reopened", 0.2)]
@@ -131,8 +140,7 @@ impl Prop for C04 {
             // regular events that nothing has named are still there by id
             for i in &stored_ok {
                 let e = &w.events[*i];
-                let k = pocket_types::Kind::from_u16(e.kind);
-                if k.is_replaceable() || k.is_parameterized_replaceable() || k.is_ephemeral() || touched.contains(&e.id) {
+                if crate::model::kind_is_replaceable(e.kind) || crate::model::kind_is_param_replaceable(e.kind) || crate::model::kind_is_ephemeral(e.kind) || touched.contains(&e.id) {
                     continue;
                 }
                 match (w.get_by_id(&e.id), w.has(&e.id)) {
@@ -148,6 +156,87 @@ impl Prop for C04 {
                     }
                     (Err(e), _) | (_, Err(e)) => {
                         out.fail(format!("C04:by-id-error:{e}"), format!("step {stepno}"));
+                        return out;
+                    }
+                }
+            }
+        }
+        // ---- concurrent stores (writers only): offsets distinct, everything reads back afterwards
+        if c.stress_threads >= 2 {
+            out.label("concurrent-stores");
+            let mut batches: Vec<Vec<usize>> = Vec::new();
+            for t in 0..c.stress_threads {
+                let mut b = Vec::new();
+                for k in 0..c.per_thread {
+                    let ge = GenEvent {
+                        author: t % 4,
+                        kind: if t == 0 { 20000 + (k as u16 % 3) } else if k % 5 == 0 { 10002 } else { 1 },
+                        created_at: 200 + k as u64,
+                        tags: vec![vec!["t".to_string(), format!("stress-{t}-{k}")]],
+                        content_len: 30 + ((k as u32 * 37 + t as u32 * 11) % 400),
+                        idc: IdChoice::Hash,
+                    };
+                    b.push(w.intern(ge.to_model(), Some(&ge)));
+                }
+                batches.push(b);
+            }
+            let len_before = w.map_len();
+            let results: Vec<Vec<(usize, Res)>> = {
+                let st = w.st();
+                let owned = &w.owned;
+                std::thread::scope(|scope| {
+                    let hs: Vec<_> = batches
+                        .iter()
+                        .map(|b| {
+                            scope.spawn(move || {
+                                b.iter()
+                                    .map(|i| {
+                                        let r = match guard("Store::store_event", || st.store_event(&owned[*i])) {
+                                            Ok(Ok(off)) => Res::Ok(off),
+                                            Ok(Err(e)) => classify_err(&e),
+                                            Err(f) => Res::Panic(f.key),
+                                        };
+                                        (*i, r)
+                                    })
+                                    .collect::<Vec<_>>()
+                            })
+                        })
+                        .collect();
+                    hs.into_iter().map(|h| h.join().unwrap_or_default()).collect()
+                })
+            };
+            if w.map_len() > len_before {
+                out.label("grew-under-concurrency");
+                out.nontrivial = true;
+            }
+            for (i, r) in results.into_iter().flatten() {
+                match r {
+                    Res::Ok(off) => {
+                        if w.offsets.insert(off, i).is_some() {
+                            out.fail("C04:offset-reused", format!("concurrent stores: offset {off} returned twice"));
+                            return out;
+                        }
+                    }
+                    Res::Panic(k) => {
+                        out.fail(format!("C04:{k}"), "concurrent stores");
+                        return out;
+                    }
+                    Res::Other(e) => {
+                        out.fail(format!("C04:concurrent-store-error:{e}"), "concurrent stores");
+                        return out;
+                    }
+                    _ => {}
+                }
+            }
+            for (off, i) in &w.offsets {
+                match w.get_by_offset(*off) {
+                    Ok(bytes) if bytes == w.owned[*i].as_bytes() => {}
+                    Ok(_) => {
+                        out.fail("C04:offset-readback-differs", format!("after concurrent stores: offset {off} no longer reads back the event stored there"));
+                        return out;
+                    }
+                    Err(e) => {
+                        out.fail(format!("C04:offset-read-error:{e}"), format!("after concurrent stores: offset {off}"));
                         return out;
                     }
                 }
